@@ -14,6 +14,17 @@ import (
 // that a harness can inspect which function go-ipfix called and with which
 // configuration; results follow the documented contracts.
 
+type tickerState struct {
+	c       *Chan
+	cell    *Value
+	stopped bool
+	resets  int
+	period  int64 // ns
+	next    int64 // virtual instant of the next tick (sx.AdvanceTime)
+}
+
+func (w *Worker) vnow() int64 { v, _ := w.pathState["vnow"].(int64); return v }
+
 type stubCall struct {
 	name string
 	fn   *ssa.Function
@@ -127,18 +138,121 @@ func init() {
 		ok := w.stubBool("stub:keyPairParses")
 		return w.resultWith(fr.fn, !w.decideBool(ok, "keyPairParses"), "tls: failed to parse key pair"), true
 	}
+	// tickers never fire on their own (real time does not pass); a harness may
+	// make the k-th ticker created on the path tick (sx.FireTicker), which is how
+	// the passage of an interval is modelled: one tick is buffered, as in the runtime
 	intrinsics["time.NewTicker"] = func(w *Worker, fr *frame, args []Value) (Value, bool) {
-		w.stub("time.NewTicker (a ticker that never fires: ticker loops are outside the encoding)")
+		w.stub("time.NewTicker (fires only when the harness says an interval has passed: sx.FireTicker)")
 		res := fr.fn.Signature.Results().At(0).Type()
 		st := mustDeref(res).Underlying().(*types.Struct)
 		cell := zero(mustDeref(res))
 		for i := 0; i < st.NumFields(); i++ {
 			if st.Field(i).Name() == "C" {
 				w.chanSeq++
-				cell.(Struct)[i] = &Chan{Cap: 1, ID: w.chanSeq, Elem: st.Field(i).Type().Underlying().(*types.Chan).Elem()}
+				c := &Chan{Cap: 1, ID: w.chanSeq, Elem: st.Field(i).Type().Underlying().(*types.Chan).Elem()}
+				cell.(Struct)[i] = c
+				ts, _ := w.pathState["tickers"].([]*tickerState)
+				d := int64(w.concInt(args[0].(Int), "ticker-period"))
+				w.pathState["tickers"] = append(ts, &tickerState{c: c, cell: &cell, period: d, next: w.vnow() + d})
 			}
 		}
 		return &cell, true
+	}
+	tickerOf := func(w *Worker, p *Value) *tickerState {
+		ts, _ := w.pathState["tickers"].([]*tickerState)
+		for _, t := range ts {
+			if t.cell == p {
+				return t
+			}
+		}
+		return nil
+	}
+	intrinsics["(*time.Ticker).Stop"] = func(w *Worker, fr *frame, args []Value) (Value, bool) {
+		if t := tickerOf(w, args[0].(*Value)); t != nil {
+			t.stopped = true
+		}
+		return nil, true
+	}
+	intrinsics["(*time.Ticker).Reset"] = func(w *Worker, fr *frame, args []Value) (Value, bool) {
+		if t := tickerOf(w, args[0].(*Value)); t != nil {
+			t.stopped = false
+			t.resets++
+			t.period = int64(w.concInt(args[1].(Int), "ticker-period"))
+			t.next = w.vnow() + t.period
+		}
+		return nil, true
+	}
+	// AdvanceTime(ns): virtual time passes; every running ticker whose next tick
+	// falls inside the step ticks (one tick is buffered, further ones are dropped,
+	// as the runtime does)
+	sxIntrinsics["AdvanceTime"] = func(w *Worker, fr *frame, a []Value) (Value, bool) {
+		now := w.vnow() + int64(sI(a[0]))
+		w.pathState["vnow"] = now
+		ts, _ := w.pathState["tickers"].([]*tickerState)
+		fired := 0
+		for _, t := range ts {
+			if t.stopped || t.period <= 0 {
+				continue
+			}
+			for t.next <= now {
+				t.next += t.period
+				if len(t.c.Q) < t.c.Cap {
+					t.c.Q = append(t.c.Q, zero(t.c.Elem))
+					fired++
+				}
+			}
+		}
+		if fired > 0 {
+			w.progress()
+			w.schedPoint("tick")
+		}
+		return vI(fired), true
+	}
+	// FireTicker(k): the interval of the k-th ticker created on this path has
+	// passed; returns false if there is no such ticker or it was stopped
+	sxIntrinsics["FireTicker"] = func(w *Worker, fr *frame, a []Value) (Value, bool) {
+		ts, _ := w.pathState["tickers"].([]*tickerState)
+		k := sI(a[0])
+		if k < 0 || k >= len(ts) || ts[k].stopped {
+			return mkBool(false), true
+		}
+		if len(ts[k].c.Q) < ts[k].c.Cap {
+			ts[k].c.Q = append(ts[k].c.Q, zero(ts[k].c.Elem))
+			w.progress()
+		}
+		w.schedPoint("tick")
+		return mkBool(true), true
+	}
+	sxIntrinsics["NumTickers"] = func(w *Worker, fr *frame, a []Value) (Value, bool) {
+		ts, _ := w.pathState["tickers"].([]*tickerState)
+		return vI(len(ts)), true
+	}
+	sxIntrinsics["TickerStopped"] = func(w *Worker, fr *frame, a []Value) (Value, bool) {
+		ts, _ := w.pathState["tickers"].([]*tickerState)
+		k := sI(a[0])
+		return mkBool(k >= 0 && k < len(ts) && ts[k].stopped), true
+	}
+	// Yield lets the other goroutines run until they block (cooperative mode) -
+	// the harness waits for background work to settle
+	sxIntrinsics["Settle"] = func(w *Worker, fr *frame, a []Value) (Value, bool) {
+		cur := w.mainG()
+		if w.curG != nil {
+			cur = w.curG
+		}
+		for i := 0; i < 64; i++ {
+			other := false
+			for _, g := range w.gs {
+				if g != cur && w.runnable(g) {
+					other = true
+				}
+			}
+			if !other {
+				break
+			}
+			w.idleYields = 0
+			w.yield("settle")
+		}
+		return nil, true
 	}
 	// ---- protobuf runtime (unsafe/reflect based): uninterpreted
 	// every marshalling entry point is recorded under the name of proto.Marshal
@@ -203,9 +317,7 @@ func init() {
 		w.stub("protobuf UnmarshalOptions.Unmarshal (recorder)")
 		return Iface{}, true
 	}
-	noop := func(w *Worker, fr *frame, args []Value) (Value, bool) { return zeroRet(fr.fn), true }
-	intrinsics["(*time.Ticker).Stop"] = noop
-	intrinsics["(*time.Ticker).Reset"] = noop
+	_ = 0
 
 	sxIntrinsics["StubCount"] = func(w *Worker, fr *frame, a []Value) (Value, bool) {
 		n := 0
@@ -360,6 +472,21 @@ func init() {
 		}
 		w.recordCall(fr, args)
 		return Tuple{l, Iface{}}, true
+	}
+	// crypto/tls.NewListener(inner, config): recorded; returns the listener the
+	// harness registered as the TLS side (sx.RegisterTLSListener), so that a
+	// server built as tls.NewListener(net.Listen(...)) can be told from one that
+	// accepts on the plaintext listener
+	sxIntrinsics["RegisterTLSListener"] = func(w *Worker, fr *frame, a []Value) (Value, bool) {
+		w.pathState["tlsListener"] = a[0]
+		return nil, true
+	}
+	intrinsics["crypto/tls.NewListener"] = func(w *Worker, fr *frame, args []Value) (Value, bool) {
+		w.recordCall(fr, args)
+		if l, ok := w.pathState["tlsListener"]; ok {
+			return l, true
+		}
+		return args[0], true
 	}
 	prevListenUDP := intrinsics["net.ListenUDP"]
 	intrinsics["net.ListenUDP"] = func(w *Worker, fr *frame, args []Value) (Value, bool) {
